@@ -155,6 +155,16 @@ Proof.
   intros W progs s Hr Hf. apply quiet_QInv; [eapply Inv0_reachable; eauto | apply finished_quiet; auto].
 Qed.
 
+(** at quiescence the registration state of every callsite is settled: listed iff REGISTERED *)
+Theorem quiescent_registered : forall W progs s, reachable (step W) (init progs) s -> finished s = true ->
+  forall cs, In cs (st_list s) <-> st_reg s cs = Registered.
+Proof.
+  intros W progs s Hr Hf cs. destruct (Inv0_reachable _ _ _ Hr) as [_ _ ir _ _]. split; [|apply (R9 _ ir)].
+  intros Hin. destruct (st_reg s cs) eqn:E; auto; exfalso.
+  - destruct (R2 _ ir cs E) as [Hn _]. auto.
+  - destruct (R12 _ ir cs E) as [t [Ht Hp]]. rewrite (finished_idle _ _ Hf Ht) in Hp. discriminate.
+Qed.
+
 (** every registered callsite has been offered to every collector that completed [Dispatch::new] and is live — in
     every reachable state, not only at quiescence *)
 Theorem offered : forall W progs s, reachable (step W) (init progs) s ->
@@ -194,17 +204,27 @@ Proof.
   intros W s t s' H. unfold pcof. step_inv H; rewrite ?mid_cur, ?mid_vals; rewrite ?Hpc; eauto 6.
 Qed.
 
-(** a handle whose collector is gone: the reload reports the error and touches nothing *)
+(** a handle whose cell is gone (the collector is gone and no reload that upgraded the handle earlier is still in flight):
+    the reload reports the error and touches nothing *)
+Lemma mid_cell_live : forall s t l c, cell_live (set_thr (upd (st_thr s) t (set_prog l (st_thr s t))) s) c = cell_live s c.
+Proof.
+  intros. unfold cell_live, live, any_thread. cbn. f_equal; [f_equal|]; apply existsb_ext'; intros x; rewrite upd_eq;
+    destruct (Nat.eqb_spec x t); subst; auto.
+Qed.
 Theorem reload_gone : forall W s t c f rest, t < st_n s -> th_pc (st_thr s t) = PIdle ->
-  th_prog (st_thr s t) = OReload c f :: rest -> st_created s c = true -> live s c = false ->
+  th_prog (st_thr s t) = OReload c f :: rest -> st_created s c = true -> cell_live s c = false ->
   step W s t = Some (emit_log (EvReload t c f false) (upd_thr t (set_prog rest (st_thr s t)) s)).
 Proof.
   intros W s t c f rest Ht Hp Hprog Hc Hl. unfold step. apply Nat.ltb_lt in Ht. rewrite Ht. cbn [negb].
   rewrite Hp, Hprog. unfold start_op. cbn [st_created upd_thr set_thr]. rewrite Hc.
-  assert (E : live (set_thr (upd (st_thr s) t (set_prog rest (st_thr s t))) s) c = live s c).
-  { unfold live, any_thread. cbn. f_equal. apply existsb_ext'. intros x. rewrite upd_eq.
-    destruct (Nat.eqb_spec x t); subst; auto. }
-  unfold upd_thr in *. rewrite E, Hl. reflexivity.
+  unfold upd_thr. rewrite mid_cell_live, Hl. reflexivity.
+Qed.
+(** with the collector gone, only a reload already in flight keeps the cell alive *)
+Theorem cell_gone : forall s c, live s c = false ->
+  cell_live s c = true -> exists t, t < st_n s /\ pc_cell (pcof s t) = Some c.
+Proof.
+  intros s c Hl Hc. unfold cell_live in Hc. rewrite Hl in Hc. cbn in Hc.
+  apply any_thread_true in Hc. destruct Hc as [t [Ht Hp]]. apply oeqb_true in Hp. eauto.
 Qed.
 
 (** ... and a collector that is gone stays gone *)
